@@ -1854,6 +1854,14 @@ def sec_simsweep(ctx, rng, case):
         return
     qs = [cirq.LineQubit(i) for i in range(nq)]
     C = build_circuit(moments, dims)
+    # a parameterized operation on no qubits at all: exp(i pi s) as a global phase (its own component of a split state)
+    gphase = None
+    if rng.random() < 0.3:
+        import sympy
+        gs = syms[int(rng.integers(len(syms)))]
+        C.insert(int(rng.integers(0, len(C) + 1)), cirq.Moment([cirq.global_phase_operation(sympy.exp(sympy.I * sympy.pi * sympy.Symbol(gs)))]))
+        gphase = gs
+        refs = [r * np.exp(1j * math.pi * e[gs]) for r, e in zip(refs, envs)]
     # a classical flag qubit: only X gates and a measurement with a certain outcome, at a random position
     flag = cirq.LineQubit(nq)
     with_flag = case % 3 == 0
@@ -1869,13 +1877,13 @@ def sec_simsweep(ctx, rng, case):
         order = qs
     initial = int(rng.integers(0, 2 ** nq)) if rng.random() < 0.4 else 0
     if initial:
-        refs = [_ref_state(moments, nq, e, initial) for e in envs]
+        refs = [_ref_state(moments, nq, e, initial) * (np.exp(1j * math.pi * e[gphase]) if gphase else 1.0) for e in envs]
     dtype = np.complex64 if case % 4 != 1 else np.complex128
     split = case % 5 != 2
     sim = cirq.Simulator(dtype=dtype, split_untangled_states=split, seed=int(rng.integers(1 << 30)))
     init_full = (initial << 1) if with_flag else initial
     wit = dict(circuit=[[m.show() for m in ops] for ops in moments], first_parameterized_moment=first_param, points=envs, initial=initial,
-               dtype=str(np.dtype(dtype)), split=split, flag=with_flag)
+               dtype=str(np.dtype(dtype)), split=split, flag=with_flag, global_phase_symbol=gphase)
     results = sim.simulate_sweep(C, sweep, qubit_order=order, initial_state=init_full)
     ctx.check(len(results) == len(envs), "simulate_sweep-len", "C10:simulate_sweep:count", "%d results for %d assignments" % (len(results), len(envs)), **wit)
     tol_pair = 1e-5 if dtype == np.complex64 else 1e-7
